@@ -1351,18 +1351,7 @@ func (c *Compiler) lowerCurrentOpcode() {
 
 		c.switchTo(originalLen, loopHeader)
 
-		if c.ensureTermination {
-			checkModuleExitCodePtr := builder.AllocateInstruction().
-				AsLoad(c.execCtxPtrValue,
-					wazevoapi.ExecutionContextOffsetCheckModuleExitCodeTrampolineAddress.U32(),
-					ssa.TypeI64,
-				).Insert(builder).Return()
-
-			args := c.allocateVarLengthValues(1, c.execCtxPtrValue)
-			builder.AllocateInstruction().
-				AsCallIndirect(checkModuleExitCodePtr, &c.checkModuleExitCodeSig, args).
-				Insert(builder)
-		}
+		c.insertModuleExitCodeCheck()
 	case wasm.OpcodeIf:
 		bt := c.readBlockType()
 
@@ -3662,7 +3651,27 @@ func (c *Compiler) lowerCallIndirect(typeIndex, tableIndex uint32) {
 	c.reloadAfterCall()
 }
 
+// insertModuleExitCodeCheck inserts the call of the check-module-exit-code trampoline when ensureTermination is set.
+// It is placed wherever control can cycle without growing the stack: loop headers and tail calls.
+func (c *Compiler) insertModuleExitCodeCheck() {
+	if !c.ensureTermination {
+		return
+	}
+	builder := c.ssaBuilder
+	checkModuleExitCodePtr := builder.AllocateInstruction().
+		AsLoad(c.execCtxPtrValue,
+			wazevoapi.ExecutionContextOffsetCheckModuleExitCodeTrampolineAddress.U32(),
+			ssa.TypeI64,
+		).Insert(builder).Return()
+
+	args := c.allocateVarLengthValues(1, c.execCtxPtrValue)
+	builder.AllocateInstruction().
+		AsCallIndirect(checkModuleExitCodePtr, &c.checkModuleExitCodeSig, args).
+		Insert(builder)
+}
+
 func (c *Compiler) lowerTailCallReturnCall(fnIndex uint32) {
+	c.insertModuleExitCodeCheck()
 	isIndirect, sig, args, funcRefOrPtrValue := c.prepareCall(fnIndex)
 	builder := c.ssaBuilder
 	state := c.state()
@@ -3693,6 +3702,7 @@ func (c *Compiler) lowerTailCallReturnCall(fnIndex uint32) {
 }
 
 func (c *Compiler) lowerTailCallReturnCallIndirect(typeIndex, tableIndex uint32) {
+	c.insertModuleExitCodeCheck()
 	builder := c.ssaBuilder
 	state := c.state()
 	executablePtr, typ, args := c.prepareCallIndirect(typeIndex, tableIndex)
